@@ -308,6 +308,10 @@ def cut_faults(case, every=1):
 def suffix_faults(case, rng, long=True):
     # short suffixes, and (for a third of the inputs) ones around and beyond 64 / 256 bytes
     ks = (1, 2, 4) + ((rng.choice((63, 64)), 65, rng.choice((255, 256, 257, 300, 1000))) if long and rng.random() < 0.34 else ())
+    # what follows a complete value may start with any byte: 0x00 (falsy), the usual 0x80, 0xff
+    for first in (b"\x00", b"\x00\xc4", b"\xff"):
+        yield Case(case.t, case.d + first, case.cc, case.enc, origin=case.origin, fault=dict(kind="suffix", bytes=first.hex()),
+                   sig=("suffix", case.t, case.cc, "first-" + first.hex(), len(case.d)))
     for k in ks:
         suf = bytes(rng.randrange(256) for _ in range(k))
         yield Case(case.t, case.d + suf, case.cc, case.enc, origin=case.origin, fault=dict(kind="suffix", bytes=suf.hex()),
